@@ -209,6 +209,7 @@ ZP(len) == [ZR(len) EXCEPT !.panics = TRUE]
 MinN(a, b) == IF a <= b THEN a ELSE b
 ZSem(e, len) ==
   CASE e.op = "znew" -> ZR(0)
+    [] e.op = "zbox_try_array" -> ZR(len)
     [] len < 0 -> ZR(len)                                   \* no vector: the driver does nothing
     [] e.op = "zpush" -> ZR(len + 1)
     [] e.op = "zpop" -> IF len = 0 THEN ZR(0) ELSE [ZR(len - 1) EXCEPT !.ret = 1]
@@ -228,5 +229,6 @@ ZSem(e, len) ==
     [] e.op = "zclone" -> ZR(len)
     [] e.op = "zreserve" -> IF e.a < 0 /\ len > 0 THEN ZP(len) ELSE ZR(len)     \* len + usize::MAX overflows
     [] e.op = "zdrop" -> [ZR(0) EXCEPT !.gone = TRUE]
+    [] e.op = "zbox_try_array" -> ZR(len)
     [] OTHER -> ZR(len)
 =============================================================================
